@@ -27,27 +27,27 @@ type hostileScn struct {
 	Victim string   `json:"victim"` // daemon-sender | daemon-receiver | client
 	Field  string   `json:"field"`  // field to damage ("" with Kind argline/noise)
 	Class  string   `json:"class"`
-	Kind   string   `json:"kind"`   // "" (field mutation) | argline | noise | cut
-	Args   []string `json:"args"`   // argline: extra argument lines
-	Seed   int64    `json:"seed"`   // noise
-	Cut    int      `json:"cut"`    // cut: truncate our stream at this offset
-	Only   bool     `json:"only"`   // argline: Args are the ONLY argument lines (nothing of the valid request)
-	Frame  int      `json:"frame"`  // bigframe (client): one data frame of this many bytes, all delivered
+	Kind   string   `json:"kind"`  // "" (field mutation) | argline | noise | cut
+	Args   []string `json:"args"`  // argline: extra argument lines
+	Seed   int64    `json:"seed"`  // noise
+	Cut    int      `json:"cut"`   // cut: truncate our stream at this offset
+	Only   bool     `json:"only"`  // argline: Args are the ONLY argument lines (nothing of the valid request)
+	Frame  int      `json:"frame"` // bigframe (client): one data frame of this many bytes, all delivered
 }
 
 type hostileObs struct {
-	ID       int    `json:"id"`
-	Victim   string `json:"victim"`
-	Field    string `json:"field"`
-	Class    string `json:"class"`
-	Kind     string `json:"kind"`
-	Alive    bool   `json:"alive"`
-	Ended    bool   `json:"ended"`
-	NextOK   bool   `json:"nextok"`
-	Result   string `json:"result"` // what the attacked session returned: error text or "ok"
-	Hit      bool   `json:"hit"`    // the field exists in the script (the mutation was applied)
-	Reported string `json:"reported"` // error the victim reported back to the peer, if any
-	Len      int    `json:"len"`
+	ID       int             `json:"id"`
+	Victim   string          `json:"victim"`
+	Field    string          `json:"field"`
+	Class    string          `json:"class"`
+	Kind     string          `json:"kind"`
+	Alive    bool            `json:"alive"`
+	Ended    bool            `json:"ended"`
+	NextOK   bool            `json:"nextok"`
+	Result   string          `json:"result"`   // what the attacked session returned: error text or "ok"
+	Hit      bool            `json:"hit"`      // the field exists in the script (the mutation was applied)
+	Reported string          `json:"reported"` // error the victim reported back to the peer, if any
+	Len      int             `json:"len"`
 	Scn      json.RawMessage `json:"scn"`
 }
 
@@ -60,11 +60,11 @@ type fld struct {
 	b    []byte
 }
 
-func fI(name string, v int64) fld    { return fld{name: name, kind: "i32", i: v} }
-func fB(name string, b []byte) fld   { return fld{name: name, kind: "bytes", b: b} }
-func fL(name string, s string) fld   { return fld{name: name, kind: "line", b: []byte(s + "\n")} }
-func fY(name string, v byte) fld     { return fld{name: name, kind: "byte", i: int64(v)} }
-func f64(name string, v int64) fld   { return fld{name: name, kind: "i64", i: v} }
+func fI(name string, v int64) fld  { return fld{name: name, kind: "i32", i: v} }
+func fB(name string, b []byte) fld { return fld{name: name, kind: "bytes", b: b} }
+func fL(name string, s string) fld { return fld{name: name, kind: "line", b: []byte(s + "\n")} }
+func fY(name string, v byte) fld   { return fld{name: name, kind: "byte", i: int64(v)} }
+func f64(name string, v int64) fld { return fld{name: name, kind: "i64", i: v} }
 
 // serialise builds the byte stream, damaging the FIRST field called target.
 // Returns the bytes, whether the target was found, and the cut offset (-1: none).
@@ -335,7 +335,7 @@ func hostileHandler(w *workerCtx, line []byte) (any, error) {
 		fs := clientScript(fdata)
 		if s.Kind == "bigframe" {
 			// version, seed, then ONE data frame of s.Frame bytes (a file list that never ends), all delivered
-			fs = []fld{fI("version", 27), fI("seed", 4711), fY("h0", byte(s.Frame)), fY("h1", byte(s.Frame >> 8)), fY("h2", byte(s.Frame >> 16)), fY("h3", 7),
+			fs = []fld{fI("version", 27), fI("seed", 4711), fY("h0", byte(s.Frame)), fY("h1", byte(s.Frame>>8)), fY("h2", byte(s.Frame>>16)), fY("h3", 7),
 				fB("payload", bytes.Repeat([]byte{0x40, 1, 0, 0, 0, 'x', 0, 0, 0, 0, 0, 0, 0, 0, 0xa4, 0x81, 0, 0}, s.Frame/18+1)[:s.Frame])}
 		}
 		script, hit, _ := serialise(fs, s.Field, s.Class, rnd)
@@ -506,7 +506,7 @@ func clientScript(fdata []byte) []fld {
 	for _, f := range inner {
 		writeField(&body, f)
 	}
-	fs := []fld{fI("version", 27), fI("seed", int64(seed)), fY("mux.len0", byte(body.Len())), fY("mux.len1", byte(body.Len() >> 8)), fY("mux.len", byte(body.Len() >> 16)), fY("mux.tag", 7)}
+	fs := []fld{fI("version", 27), fI("seed", int64(seed)), fY("mux.len0", byte(body.Len())), fY("mux.len1", byte(body.Len()>>8)), fY("mux.len", byte(body.Len()>>16)), fY("mux.tag", 7)}
 	fs = append(fs, inner...)
 	return fs
 }
